@@ -3,26 +3,122 @@ package extension
 import (
 	"errors"
 	"sync"
+	"sync/atomic"
 	"time"
 )
 
 // AsyncEventBroker maintains a list of listeners interested in a specific type
-// of event.  Events are sent in parallel to all listeners, and no result is
-// returned.
+// of event.  Emit never waits for a listener and no result is returned.  Each
+// listener name has one FIFO queue drained by one goroutine, so a listener is
+// not called for the next event until its call for the previous one completes,
+// and it sees events in the order they were emitted.  Listeners with different
+// names run in parallel.  The After-event brokers of one Host share the queues,
+// which extends the ordering to the events of all of them.
 type AsyncEventBroker[E any] struct {
 	sync.RWMutex
-	listenerNames []string  // Ordered listener names.
-	listenerFuncs []func(E) // Ordered listener functions.
+	listeners []*asyncListener[E] // Ordered listeners.
+	queues    *asyncQueues        // Shared by the brokers of a Host, else created on demand.
 }
 
-// Emit sends the provided event to each registered listener in parallel.
+type asyncListener[E any] struct {
+	name    string
+	fn      func(E)
+	queue   *asyncQueue
+	removed atomic.Bool // Set by RemoveListener; calls still queued are dropped.
+}
+
+// asyncQueue is an unbounded FIFO of pending listener calls, run one at a time.
+type asyncQueue struct {
+	mu    sync.Mutex
+	ready sync.Cond // Signalled when calls or refs change; uses mu.
+	calls []func()
+	refs  int // Registrations using this queue; the goroutine exits at zero.
+}
+
+// asyncQueues holds the queue of each listener name that is registered.
+type asyncQueues struct {
+	mu     sync.Mutex
+	byName map[string]*asyncQueue
+}
+
+// acquire returns the queue for name, starting its goroutine if it is new.
+func (qs *asyncQueues) acquire(name string) *asyncQueue {
+	qs.mu.Lock()
+	defer qs.mu.Unlock()
+
+	q := qs.byName[name]
+	if q == nil {
+		q = &asyncQueue{refs: 1}
+		q.ready.L = &q.mu
+		if qs.byName == nil {
+			qs.byName = make(map[string]*asyncQueue)
+		}
+		qs.byName[name] = q
+		go q.run()
+
+		return q
+	}
+	q.mu.Lock()
+	q.refs++
+	q.mu.Unlock()
+
+	return q
+}
+
+// release drops one registration; the last one stops the queue's goroutine.
+func (qs *asyncQueues) release(name string, q *asyncQueue) {
+	qs.mu.Lock()
+	defer qs.mu.Unlock()
+
+	q.mu.Lock()
+	q.refs--
+	if q.refs == 0 {
+		delete(qs.byName, name)
+		q.ready.Signal()
+	}
+	q.mu.Unlock()
+}
+
+func (q *asyncQueue) push(call func()) {
+	q.mu.Lock()
+	q.calls = append(q.calls, call)
+	q.ready.Signal()
+	q.mu.Unlock()
+}
+
+func (q *asyncQueue) run() {
+	q.mu.Lock()
+	for {
+		for len(q.calls) == 0 && q.refs > 0 {
+			q.ready.Wait()
+		}
+		if q.refs == 0 {
+			q.mu.Unlock()
+			return // Unregistered everywhere; calls still queued are dropped.
+		}
+		call := q.calls[0]
+		q.calls[0] = nil
+		q.calls = q.calls[1:]
+		q.mu.Unlock()
+		call()
+		q.mu.Lock()
+	}
+}
+
+// Emit queues the provided event for each registered listener, and returns
+// without waiting for any of them.
 func (eb *AsyncEventBroker[E]) Emit(event *E) {
 	eb.RLock()
 	defer eb.RUnlock()
 
-	for _, l := range eb.listenerFuncs {
+	for _, l := range eb.listeners {
 		// Events are copied to minimize the risk of mutation.
-		go l(*event)
+		l, ev := l, *event
+		l.queue.push(func() {
+			if !l.removed.Load() {
+				l.fn(ev)
+			}
+		})
 	}
 }
 
@@ -33,12 +129,17 @@ func (eb *AsyncEventBroker[E]) AddListener(name string, listener func(E)) {
 	eb.Lock()
 	defer eb.Unlock()
 
+	if eb.queues == nil {
+		eb.queues = &asyncQueues{}
+	}
+	// Acquire before removing a duplicate so that a replacement keeps the queue.
+	l := &asyncListener[E]{name: name, fn: listener, queue: eb.queues.acquire(name)}
 	eb.lockedRemoveListener(name)
-	eb.listenerNames = append(eb.listenerNames, name)
-	eb.listenerFuncs = append(eb.listenerFuncs, listener)
+	eb.listeners = append(eb.listeners, l)
 }
 
-// RemoveListener unregisters the named listener.
+// RemoveListener unregisters the named listener.  Events still queued for it
+// are dropped; a call already in progress is not waited for.
 func (eb *AsyncEventBroker[E]) RemoveListener(name string) {
 	eb.Lock()
 	defer eb.Unlock()
@@ -47,10 +148,11 @@ func (eb *AsyncEventBroker[E]) RemoveListener(name string) {
 }
 
 func (eb *AsyncEventBroker[E]) lockedRemoveListener(name string) {
-	for i, entry := range eb.listenerNames {
-		if entry == name {
-			eb.listenerNames = append(eb.listenerNames[:i], eb.listenerNames[i+1:]...)
-			eb.listenerFuncs = append(eb.listenerFuncs[:i], eb.listenerFuncs[i+1:]...)
+	for i, l := range eb.listeners {
+		if l.name == name {
+			eb.listeners = append(eb.listeners[:i:i], eb.listeners[i+1:]...)
+			l.removed.Store(true)
+			eb.queues.release(name, l.queue)
 			break
 		}
 	}
